@@ -357,11 +357,67 @@ def exact_affine(case, adapt):
     return obs
 
 
+def exact_saa(adapt):
+    """Sample-average special case, deductively: singleton supports z = zhat_s, fixed probabilities (1/2, 1/2).  Then the
+    ambiguity set contains exactly one distribution and  E[max_i q_i(x, z)] = sum_s p_s max_i q_i(x_s, zhat_s):  the
+    projection of the compiled program onto (objective, decisions) must be exactly that piecewise-linear system, for an
+    objective E(maxof(...)) and a constraint E(maxof(...)) <= g."""
+    from ..spec import proj
+    from ..sym import ctx, p_max
+    zh = [np.array([1.0, -0.5]), np.array([-2.0, 0.25])]
+    cost = np.array([1.5, -2.0])
+
+    def setup(c):
+        m = dro.Model(2)
+        x = m.dvar(2)
+        z = m.rvar(2)
+        fs = m.ambiguity()
+        for s in range(2):
+            fs[s].suppset(z == zh[s])
+        fs.probset(m.p == 0.5)
+        if adapt:
+            x.adapt(1)
+        m.minsup(rsome.E(rsome.maxof(cost @ x + x[0] * z[0], 2 * x[1] * z[1] - x[0], 0.5)), fs)
+        m.st(rsome.E(rsome.maxof(x[0] * z[1] + x[1], x[1] * z[0] - 1)) <= 2.0)
+        m.st(rsome.E(x[0] * z[0] - x[1]) <= 3.0)
+        m.st(x <= 3, x >= -3)
+        F = m.do_math()
+        cols = [0]
+        for s in (range(2) if adapt else range(1)):
+            R = views.dense(m.rule_var()[s].linear)
+            cols += [next(j for j in range(R.shape[1]) if R[x.first + i, j] != 0) for i in range(2)]
+        return {"F": F, "cols": cols}
+
+    def exact(ns, _):
+        c = ctx()
+        X = [c.fresh_real(f"X{j}_") for j in range(len(ns["cols"]))]
+        t = X[0]
+        xs = [(X[1], X[2]), (X[3], X[4]) if adapt else (X[1], X[2])]
+        rows = []
+        for (a, b) in set(xs):
+            rows += [p_le(-3.0, a), p_le(a, 3.0), p_le(-3.0, b), p_le(b, 3.0)]
+        obj = con = lin = 0.0
+        for s in range(2):
+            x0, x1 = xs[s]
+            z0, z1 = float(zh[s][0]), float(zh[s][1])
+            obj = obj + 0.5 * p_max(p_max(cost[0] * x0 + cost[1] * x1 + x0 * z0, 2 * x1 * z1 - x0), 0.5)
+            con = con + 0.5 * p_max(x0 * z1 + x1, x1 * z0 - 1)
+            lin = lin + 0.5 * (x0 * z0 - x1)
+        rows += [p_le(obj, t), p_le(con, 2.0), p_le(lin, 3.0)]
+        return p_iff(proj.exists_feas(ns["F"], ns["cols"], X), p_and(*rows))
+
+    obs, _ = check_function("rsome.dro:<model pipeline>", setup, lambda ns: None,
+                            [post("sample-average-case: projection-equals-the-expectation-of-the-maximum-over-the-two-samples", exact)],
+                            mode="D", label=f"SAA with E(maxof) objective and constraint,{'event-wise' if adapt else 'static'}", bounded=True, z3_ms=90000)
+    return obs
+
+
 def jobs(tier):
     seed = int(os.environ.get("VERIF_SEED", "0") or 0)
     return [{"name": "lifted-set", "kind": "lifted"}, {"name": "free-multipliers", "kind": "free"},
             {"name": "special-cases-sampled", "kind": "special", "n": 40 if tier == "quick" else 400, "seed": seed}] + [
-            {"name": f"exact-{c}-{'event' if a else 'static'}", "kind": "exact", "case": c, "adapt": a} for c in EXACT_CASES for a in (False, True)]
+            {"name": f"exact-{c}-{'event' if a else 'static'}", "kind": "exact", "case": c, "adapt": a} for c in EXACT_CASES for a in (False, True)] + [
+            {"name": f"exact-saa-{'event' if a else 'static'}", "kind": "saa", "adapt": a} for a in (False, True)]
 
 
 def run_job(job):
@@ -371,4 +427,6 @@ def run_job(job):
         return free_multipliers()
     if job["kind"] == "exact":
         return exact_affine(job["case"], job["adapt"])
+    if job["kind"] == "saa":
+        return exact_saa(job["adapt"])
     return special_cases(job["n"], job["seed"])
